@@ -142,6 +142,58 @@ Theorem C19_class_order_block : List.length block = 42 /\ forallb (fun h => acyc
 Proof. exact (conj (proj1 class_order_block) (conj block_ranked block_ok)). Qed.
 Print Assumptions C19_class_order_block.
 
+(* (3e) SUPERCLASS ORDER in a snapshot.  The defclass forms of the classes section (class_forms: the classes in the
+   writer's order, the direct superclasses of each in the order given to defclass) define, for EVERY acyclic hierarchy
+   (rank function as in C19_class_order_ok), a hierarchy in which every class has the inheritance list -- slip's
+   precedence, StandardClass.mergeSupers: direct superclasses first, in order, then what each inherits, each class
+   once -- it had in the session, for every fuel of the walk.  The decidable form is what the per-run case KCase
+   evaluates on the forms slip wrote.  The example shows that the statement is about the ORDER: a writer that lists the
+   direct superclasses by name gives (duck (bird animal)) the precedence duck, animal, bird; 15 of the 42 hierarchies of
+   the enumerated block list their superclasses against the name order. *)
+From C19 Require Import Reload ReloadProofs.
+Theorem C19_class_forms_keep_precedence : forall (h : hier) (rank : string -> nat),
+  (forall c sups s, In (c, sups) h -> In s sups -> In s (map fst h) -> rank s < rank c) ->
+  (forall c, In c (map fst h) -> rank c <= List.length h) ->
+  (forall fuel c, inherit_list fuel (class_forms h) c = inherit_list fuel h c)
+  /\ precedence_kept h (class_forms h) = true.
+Proof. exact class_forms_ranked. Qed.
+Print Assumptions C19_class_forms_keep_precedence.
+Theorem C19_superclass_order_matters :
+  let h := [("c19s-animal", []); ("c19s-bird", []); ("c19s-duck", ["c19s-bird"; "c19s-animal"])] in
+  order_ok h (class_order h) = true
+  /\ precedence h "c19s-duck" = ["c19s-duck"; "c19s-bird"; "c19s-animal"]
+  /\ precedence (class_forms h) "c19s-duck" = ["c19s-duck"; "c19s-bird"; "c19s-animal"]
+  /\ precedence (class_forms_sorted h) "c19s-duck" = ["c19s-duck"; "c19s-animal"; "c19s-bird"]
+  /\ precedence_kept h (class_forms_sorted h) = false.
+Proof. exact sorted_supers_change_precedence. Qed.
+Print Assumptions C19_superclass_order_matters.
+Theorem C19_block_has_unsorted_superclasses :
+  List.length (filter (fun h => negb (hier_eqb (class_forms h) (class_forms_sorted h))) block) = 15.
+Proof. exact block_has_unsorted_supers. Qed.
+Print Assumptions C19_block_has_unsorted_superclasses.
+
+(* (3f) FUNCTIONS SECTION of a snapshot with packages.  For EVERY list of packages with their functions, EVERY package that
+   is current while the snapshot is taken and EVERY package the loader is in when it reaches the section: loading the
+   lines the writer produces (per package with functions an in-package line and the definitions; a last in-package line)
+   defines every function in the package it belonged to, in order, and leaves the current package of the snapshot
+   current.  The example shows that the statement needs the in-package line of the CURRENT package too: without it the
+   functions of the current package land in the package of the section before. *)
+Theorem C19_function_section_restores : forall start cur ps,
+  load_section start (fun_section cur ps) = (cur, defs_of ps)
+  /\ section_restores start cur ps (fun_section cur ps) = true.
+Proof. exact fun_section_both. Qed.
+Print Assumptions C19_function_section_restores.
+Theorem C19_switch_to_current_package_needed :
+  let ps := [("common-lisp-user", ["c19s-helper"]); ("c19s-zoo", ["c19s-twice"])] in
+  snd (load_section "common-lisp-user" (fun_section "c19s-zoo" ps))
+    = [("common-lisp-user", "c19s-helper"); ("c19s-zoo", "c19s-twice")]
+  /\ snd (load_section "common-lisp-user" (fun_section_skip "c19s-zoo" ps))
+    = [("common-lisp-user", "c19s-helper"); ("common-lisp-user", "c19s-twice")]
+  /\ section_restores "common-lisp-user" "c19s-zoo" ps (fun_section_skip "c19s-zoo" ps) = false
+  /\ section_restores "common-lisp-user" "common-lisp-user" ps (fun_section_skip "common-lisp-user" ps) = true.
+Proof. exact switch_to_current_package_needed. Qed.
+Print Assumptions C19_switch_to_current_package_needed.
+
 (* (4) Outside the guards the faithful model violates the specification: the known finding that has a model. *)
 Theorem C19_rank_zero_refuted : reload (Arr [] [Fix 7] T true) = Err EType /\ loadable (Arr [] [Fix 7] T true) = false.
 Proof. exact rank_zero_refuted. Qed.
